@@ -38,6 +38,10 @@ type Opts struct {
 	Transfers   bool `json:"transfers"`
 	Reads       bool `json:"reads"`
 	Partitions  bool `json:"partitions"`
+	// IsolateLeader: partitions preferably cut the current leader off (divergent uncommitted tails)
+	IsolateLeader bool `json:"isolate_leader"`
+	// SnapHeavy: compact often so that lagging followers need snapshots
+	SnapHeavy bool `json:"snap_heavy"`
 	LossPct     int  `json:"loss_pct"`
 	DupPct      int  `json:"dup_pct"`
 	BigPayloads bool `json:"big_payloads"`
@@ -74,6 +78,8 @@ type Cluster struct {
 	Nodes map[uint64]*Node
 	IDs   []uint64 // all node ids ever created, sorted
 	Net   []netMsg
+	// Archive: messages that were sent earlier and may show up again (late duplicates)
+	Archive []netMsg
 	Rec   *Rec
 	Mon   *Monitor
 	Spec  *SpecTracer
@@ -226,7 +232,16 @@ func (c *Cluster) send(from *Node, m *pb.Message) {
 		c.violate("C14", "self-addressed message handed to the network", "node %d emitted %s to itself", from.ID, m.GetType())
 		return
 	}
-	c.Net = append(c.Net, netMsg{m: cloneMsg(m), from: from.ID})
+	nm := netMsg{m: cloneMsg(m), from: from.ID}
+	c.Net = append(c.Net, nm)
+	// keep some of the traffic for late re-delivery (snapshots and appends preferably)
+	if keep := m.GetType() == pb.MsgSnap || m.GetType() == pb.MsgApp || c.Rng.Intn(4) == 0; keep {
+		if len(c.Archive) < 300 {
+			c.Archive = append(c.Archive, nm)
+		} else {
+			c.Archive[c.Rng.Intn(len(c.Archive))] = nm
+		}
+	}
 	if m.GetType() == pb.MsgSnap {
 		c.snapsInFlight[[2]uint64{from.ID, m.GetTo()}] = true
 	}
